@@ -135,7 +135,19 @@ func init() {
 		fr.vc.hdrAdd(fr, st, a[0].T, a[1].T, a[2].T, pos)
 		return Val{}, st
 	}
+	hdel := func(fr *Frame, a []Val, st *State, pos token.Pos) (Val, *State) {
+		vc := fr.vc
+		p := vc.hdrOpen(st, a[0].T)
+		ck := vc.canonKey(a[1].T)
+		// delete on a nil map is a no-op
+		vc.hdrFrame(fr, st, p.name, a[0].T, pos)
+		nsize := Ite(Sel(p.dom, ck, SBool), Sub(p.size, IntLit(1)), p.size)
+		nmv := App(p.ms, "mk."+string(p.ms), Sto(p.dom, ck, False), p.val, nsize)
+		st.heaps[p.name] = vc.Define(p.name, Ite(Eq(a[0].T, IntLit(0)), p.h, Sto(p.h, a[0].T, nmv)))
+		return Val{}, st
+	}
 	extraModels = map[string]modelFn{
+		"(net/http.Header).Del": hdel,
 		"net/textproto.CanonicalMIMEHeaderKey": func(fr *Frame, a []Val, st *State, pos token.Pos) (Val, *State) {
 			return TV(fr.vc.canonKey(a[0].T)), st
 		},
